@@ -343,8 +343,12 @@ def c07_oracle(w, rng, root_idx, n0, snap0):
                                 wr.disconnect_pin(p)
             from spydrnet.uniquify import uniquify
             from spydrnet.flatten import flatten
-            uniquify(victim)
-            if rng.random() < 0.5:
+            # (uniquify / flatten work from the top instance: a netlist without one is outside their domain - the
+            # renames and disconnections above are then the whole edit; the PRNG draw is made either way)
+            has_top = victim.top_instance is not None
+            if has_top:
+                uniquify(victim)
+            if rng.random() < 0.5 and has_top:
                 flatten(victim)
         except Exception as e:  # noqa
             bad.append('edits/transformations on the %s raised %s: %s' % (side, type(e).__name__, e))
@@ -459,8 +463,8 @@ def nested_data_independence(netlist, rng):
         for d in lib.definitions:
             targets.append(d)
             targets += list(d.ports)[:1] + list(d.cables)[:1] + list(d.children)[:2]
-    if netlist.top_instance is not None:
-        targets.append(netlist.top_instance)
+    if netlist.top_instance is not None and not any(t is netlist.top_instance for t in targets):
+        targets.append(netlist.top_instance)   # (a top instance that is one of the children above is listed once)
     for t in targets:
         t['EDIF.properties'] = [{'identifier': 'INIT', 'value': "4'h8", 'nest': {'deep': [1, 2]}}]
     c2 = netlist.clone()
@@ -678,6 +682,18 @@ def run_case(prop, seed, case):
                     do(['reorder', 'ports', str(d), str(len(perm))] + [str(x) for x in perm])
                     if rng.random() < 0.5:
                         do(['items', 'pins', str(ports[0]), '1'])
+            # history before the clone: the netlist has no top instance, or its top instance is one of the instances
+            # inside its own cells (both are states the public setter accepts). Own PRNG so that the other choices of
+            # the case stay what they were.
+            rng_t = random.Random('%d/%s/%d/top' % (seed, prop, case))
+            rt = rng_t.random()
+            if rt < 0.12:
+                do(['settop', str(nl), 'N'])
+            elif rt < 0.3:
+                inner = [i for i, o in enumerate(w.objs) if w.kind(o) == 'instance' and o.parent is not None and o.parent.library is not None
+                         and o.parent.library.netlist is w.objs[nl]]
+                if inner:
+                    do(['settop', str(nl), 'I%d' % rng_t.choice(inner)])
             r = rng.random()
             if r < 0.45:
                 root = nl
@@ -875,6 +891,17 @@ def run_case(prop, seed, case):
                     c = rng_e.choice(inner)[0]
                     shape = '%s without a name inside a hierarchical cell' % ('cable' if isinstance(c, sdn.ir.Cable) else 'leaf instance')
                     do(['setname', str(w.index[id(c)]), '~'])
+        if prop == 'C09':
+            # cables and instances that carry an EDIF identifier (a design read from EDIF, met as plain data under the
+            # default policy): flatten gives every element it brings to the top a fresh identifier from its own counter
+            # ("cable_sdn_flat_<n>" / "instance_sdn_flat_<n>") - the model's flat_ctr. Own PRNG so that the other
+            # choices of the case stay what they were.
+            rng_i = random.Random('%d/%s/%d/edifid' % (seed, prop, case))
+            if rng_i.random() < 0.3:
+                elems = [i for i, o in enumerate(w.objs) if (w.kind(o) == 'cable' and o.definition is not None)
+                         or (w.kind(o) == 'instance' and o.parent is not None)]
+                for k, i in enumerate(rng_i.sample(elems, min(len(elems), rng_i.choice([1, 2, 4, 8])))):
+                    do(['dset', str(i), netgen.tok_of_s('EDIF.identifier'), 's:' + netgen.tok_of_s('id_%d' % k)])
         before = elab.elaborate(n)
         out = do(['flatten', str(nl), FUEL])
         if out != 'ok':
